@@ -13,6 +13,7 @@ type ImportProg struct {
 	Main  []ImportStmt `json:"main"`
 	After []ImportStmt `json:"after"` // run in the same session after main, even if main raised
 	Path  []string     `json:"path"`  // sys.path directories (lib0, lib1)
+	Late  []ImportMod  `json:"late,omitempty"` // modules whose files appear only at run time (fs_add) or live in a directory that enters sys.path later
 }
 
 type ImportMod struct {
@@ -141,6 +142,23 @@ func GenImport(r *simrt.Rand, faultsOK bool) *ImportProg {
 			p.Main = append(p.Main, ImportStmt{K: "gomod", M: []string{"math", "sys", "time"}[r.Intn(3)], ID: next()})
 		}
 	}
+	// the environment changes while the program runs: a module that was
+	// missing appears (file created; or a sys.path entry replaced in place),
+	// and a repeated import must then find it
+	p.Path = append(p.Path, "libdummy")
+	nl := r.Intn(3)
+	for k := 0; k < nl; k++ {
+		kind := []string{"late", "swap"}[r.Intn(2)]
+		name := fmt.Sprintf("late%d", k)
+		dir := "lib0"
+		if kind == "swap" {
+			dir = "libx"
+		}
+		p.Late = append(p.Late, ImportMod{Name: name, Dir: dir})
+		st := ImportStmt{K: kind, M: name, ID: next()}
+		pos := r.Intn(len(p.Main) + 1)
+		p.Main = append(p.Main[:pos], append([]ImportStmt{st}, p.Main[pos:]...)...)
+	}
 	// afterwards: the context must still be fully usable
 	p.After = append(p.After, ImportStmt{K: "code", V: 1, ID: next()})
 	for _, n := range names {
@@ -151,11 +169,27 @@ func GenImport(r *simrt.Rand, faultsOK bool) *ImportProg {
 	return p
 }
 
-// Files renders the module files: relative path -> source.
+// Files renders the module files present from the start: relative path -> source.
 func (p *ImportProg) Files() map[string]string {
 	out := map[string]string{}
 	for _, m := range p.Mods {
 		out[m.Dir+"/"+m.Name+".py"] = p.renderMod(m)
+	}
+	for _, m := range p.Late {
+		if m.Dir == "libx" { // exists from the start, but its directory is not on sys.path yet
+			out[m.Dir+"/"+m.Name+".py"] = p.renderMod(m)
+		}
+	}
+	return out
+}
+
+// LateFiles renders the files that appear when the program calls fs_add.
+func (p *ImportProg) LateFiles() map[string]string {
+	out := map[string]string{}
+	for _, m := range p.Late {
+		if m.Dir != "libx" {
+			out[m.Dir+"/"+m.Name+".py"] = p.renderMod(m)
+		}
 	}
 	return out
 }
@@ -182,7 +216,7 @@ func (p *ImportProg) renderMod(m ImportMod) string {
 
 func (p *ImportProg) RenderMain() string {
 	var b strings.Builder
-	b.WriteString("from simlog import log, exc_name\n")
+	b.WriteString("from simlog import log, exc_name, libdir, fs_add\n")
 	for _, s := range p.Main {
 		renderImportStmt(&b, s, "main")
 	}
@@ -253,6 +287,15 @@ func renderImportStmt(b *strings.Builder, s ImportStmt, me string) {
 		fmt.Fprintf(b, "import %s as _t\n_t.val = %d\nlog(%s, \"mut\", \"%s\", %d)\n", s.M, s.V, tag, s.M, s.V)
 	case "read":
 		fmt.Fprintf(b, "try:\n    import %s as _t\n    log(%s, \"read\", \"%s\", _t.val, _t.x)\nexcept (ImportError, AttributeError) as _e:\n    log(%s, \"read\", \"%s\", exc_name(_e))\n", s.M, tag, s.M, tag, s.M)
+	case "late", "swap":
+		fmt.Fprintf(b, "try:\n    import %s\n    log(%s, \"early\", \"ok\")\nexcept ImportError as _e:\n    log(%s, \"early\", exc_name(_e))\n", s.M, tag, tag)
+		if s.K == "late" {
+			fmt.Fprintf(b, "fs_add(\"lib0/%s.py\")\n", s.M)
+		} else {
+			fmt.Fprintf(b, "import sys\nsys.path[-1] = libdir(\"libx\")\n")
+		}
+		fmt.Fprintf(b, "try:\n    import %s\n    log(%s, \"retry\", %s.x)\nexcept ImportError as _e:\n    log(%s, \"retry\", exc_name(_e))\n", s.M, tag, s.M, tag)
+		fmt.Fprintf(b, "try:\n    import %s as _again\n    log(%s, \"again\", _again is %s)\nexcept (ImportError, NameError) as _e:\n    log(%s, \"again\", exc_name(_e))\n", s.M, tag, s.M, tag)
 	case "readany":
 		// used by the follow-up program: any failure of the import is logged, not fatal
 		fmt.Fprintf(b, "try:\n    import %s as _t\n    log(%s, \"read\", \"%s\", _t.val, _t.x)\nexcept Exception as _e:\n    log(%s, \"read\", \"%s\", exc_name(_e))\n", s.M, tag, s.M, tag, s.M)
@@ -270,7 +313,7 @@ func renderImportStmt(b *strings.Builder, s ImportStmt, me string) {
 func ShrinkImport(p *ImportProg) []*ImportProg {
 	var out []*ImportProg
 	clone := func() *ImportProg {
-		c := &ImportProg{Path: p.Path, After: p.After}
+		c := &ImportProg{Path: p.Path, After: p.After, Late: p.Late}
 		for _, m := range p.Mods {
 			m.Body = append([]ImportStmt(nil), m.Body...)
 			c.Mods = append(c.Mods, m)
